@@ -44,6 +44,8 @@ def generate(rng, tier):
             else:
                 cfg["Qmin"], cfg["Qmax"] = edge, None
             d0["Qmin"] = d0["Qmax"] = None
+        if i % 5 == 2:             # an entry with a misspelt function name is rejected just before one of the datasets is added
+            rng.choice(ds)["rejected_before"] = rng.choice(["F(Q)", "S(q)", "DCS", "FK(Q) "])
         if i % 4 == 2 and k > 1:   # the scattering lengths are changed between datasets
             for d in ds[1:]:
                 if rng.random() < 0.7:
@@ -85,6 +87,9 @@ def oracle(pystog, case, res):
     snaps = res["snaps"]
     for i, d in enumerate(case["datasets"]):
         pre, post = snaps[i], snaps[i + 1]
+        if post.get("rejected") not in (None, "clean"):
+            return "dataset %d: an entry with the unknown function name %r offered before it was %s" % (
+                i, d.get("rejected_before"), {"accepted": "accepted instead of rejected", "changed": "rejected, but it left rows behind in the storage arrays"}.get(post["rejected"], post["rejected"]))
         n0 = len(pre["recip"][0])
         for arr in ("recip", "sq"):
             if any(post[arr][j][:n0] != pre[arr][j] for j in range(3)):
